@@ -25,16 +25,24 @@ def scenarios(tier, seed, mode='forward'):
         else:
             sc['more'] = rng.randrange(2, 5)
         out.append(sc)
+    # one scenario whose flush spends tens of thousands of on-disk outputs at once (batch-size thresholds)
+    big = {'sid': f's{seed}-bigspend', 'wseed': rng.randrange(1 << 30), 'n0': 4, 'colls': 0, 'prefetch': 100, 'reorg_limit': 3,
+           'flushkind': 'allF', 'flushvec': [True], 'mode': 'forward', 'small_files': False, 'more': 1,
+           'big_spend': 52000 if tier == 'thorough' else 50500, 'only_labels': ('D:utxo:commit', 'D:utxo:put', 'D:hist:commit') if tier == 'thorough' else ('D:utxo:commit',),
+           'watchdog': 400}
+    out.append(big)
     return out
 
 
-def select_events(events, tier, rng, want_phase):
+def select_events(events, tier, rng, want_phase, only_labels=None):
     '''Which durable events to cut at.  quick: every batch commit / direct put + a stratified sample of file writes;
     thorough: every event.  File writes additionally get torn prefixes.'''
     cuts = []
     by_label = {}
     for e in events:
         if (e['phase'] == 'backup') != (want_phase == 'backup'):
+            continue
+        if only_labels and e['label'] not in only_labels:
             continue
         by_label.setdefault(e['label'], []).append(e)
     for label, evs in by_label.items():
@@ -77,7 +85,7 @@ def run_crash_property(pid, tier, seed, scen_list, want_phase, rule, floors, rep
             continue
         for k, n in v['mon'].items():
             rep.count('dry_' + k, n)
-        for (n, torn, label) in select_events(v['events'], tier, rng, want_phase):
+        for (n, torn, label) in select_events(v['events'], tier, rng, want_phase, sc.get('only_labels')):
             c = dict(sc)
             c.update({'crash_at': n, 'torn': torn, 'sample': len(cases) % 97 == 0})
             cases.append(c)
@@ -104,6 +112,8 @@ def run(tier, seed, replay=None):
         PID, tier, seed, scenarios(tier, seed), 'forward',
         rule='scenarios of 10-24 blocks with mixed history-only/full flush vectors, daemon growing during sync, half of them with a '
              'reorg and re-advance (metadata files hold stale data beyond the state height), half with metadata files shrunk so '
+             'writes cross file boundaries, plus one scenario whose flush spends > 50 000 on-disk outputs at once; '
+             'also: '
              'writes cross file boundaries; a dry run counts the durable events (each LogicalFile write, each batch commit, each '
              'direct put, each block-file write); quick cuts before every commit/put and a stratified sample of file writes '
              '(+ one torn prefix), thorough before every event with torn prefixes {1 byte, len-1, half}. After the cut: '
